@@ -790,6 +790,17 @@ add_flush_events(uint64_t t0, uint64_t t1)
 {
 	struct ovni_ev pre = {0}, post = {0};
 
+	/* The two flush events must fit in the buffer. Otherwise adding them
+	 * would trigger another flush, which emits its own flush events
+	 * nested in this pair and with a later clock than t1. This happens
+	 * when a jumbo event almost fills the buffer: flush it too and
+	 * account the time of both flushes in the same pair of events. */
+	if (rthread.evlen + sizeof(pre.header) + sizeof(post.header)
+			>= OVNI_MAX_EV_BUF) {
+		flush_evbuf();
+		t1 = ovni_clock_now();
+	}
+
 	pre.header.clock = t0;
 	ovni_ev_set_mcv(&pre, "OF[");
 
